@@ -79,6 +79,7 @@ type Obligation struct {
 	Expect string // "unsat" or "sat"
 	Cond   *T
 	Rec    Record
+	Count  int // number of recorded events folded into this query
 }
 
 type Outcome struct {
@@ -88,18 +89,36 @@ type Outcome struct {
 	Status string
 }
 
-// Obligations lists every recorded event as a query.
+// Obligations lists the recorded events as queries. Assertions are grouped by (message,
+// position) and cover points by name: one query for the disjunction over all the paths and
+// loop passes that reached the same source location (a model then names one of them).
 func (e *Engine) Obligations(prefix string) []Obligation {
 	var obs []Obligation
-	add := func(kind, expect string, recs []Record) {
-		for i, r := range recs {
-			obs = append(obs, Obligation{Name: fmt.Sprintf("%s%s%03d", prefix, kind, i), Kind: kind, Expect: expect, Cond: r.Cond, Rec: r})
+	group := func(kind, expect string, recs []Record, keyPos bool) {
+		idx := map[string]int{}
+		for _, r := range recs {
+			k := r.Msg
+			if keyPos {
+				k += "@" + r.Pos
+			}
+			if i, ok := idx[k]; ok {
+				obs[i].Cond = e.S.Or(obs[i].Cond, r.Cond)
+				obs[i].Count++
+				continue
+			}
+			idx[k] = len(obs)
+			obs = append(obs, Obligation{Name: fmt.Sprintf("%s%s%03d", prefix, kind, len(idx)-1), Kind: kind, Expect: expect, Cond: r.Cond, Rec: r, Count: 1})
 		}
 	}
-	add("assert", "unsat", e.Asserts)
-	add("panic", "unsat", e.Panics)
-	add("unwind", "unsat", e.Unwinds)
-	add("cover", "sat", e.Covers)
+	add := func(kind, expect string, recs []Record) {
+		for i, r := range recs {
+			obs = append(obs, Obligation{Name: fmt.Sprintf("%s%s%03d", prefix, kind, i), Kind: kind, Expect: expect, Cond: r.Cond, Rec: r, Count: 1})
+		}
+	}
+	group("assert", "unsat", e.Asserts, true)
+	group("panic", "unsat", e.Panics, true)
+	group("unwind", "unsat", e.Unwinds, true)
+	group("cover", "sat", e.Covers, false)
 	add("sharedwrite", "unsat", e.SharedWrite)
 	return obs
 }
@@ -187,4 +206,39 @@ func (e *Engine) UFTables(m map[string]uint64) map[string][]UFRow {
 // EvalBool evaluates a condition under a model.
 func EvalTerm(t *T, m map[string]uint64) uint64 {
 	return term.Eval(t, m, map[*T]uint64{})
+}
+
+// DischargeBatched first asks one query for the disjunction of all panic/unwind conditions
+// (the common case: none is reachable); only if that is not unsat are they decided one by one.
+// Assertions and cover points are always decided individually.
+func (e *Engine) DischargeBatched(obs []Obligation, be solver.Backend, dir string, timeoutS, par int) []Outcome {
+	var batch, rest []Obligation
+	for _, ob := range obs {
+		if (ob.Kind == "panic" || ob.Kind == "sharedwrite") && ob.Expect == "unsat" && !ob.Cond.IsFalse() {
+			batch = append(batch, ob)
+		} else {
+			rest = append(rest, ob)
+		}
+	}
+	var outs []Outcome
+	if len(batch) > 1 {
+		any := e.S.False
+		for _, ob := range batch {
+			any = e.S.Or(any, ob.Cond)
+		}
+		bob := Obligation{Name: batch[0].Name + "_batch", Kind: "panicbatch", Expect: "unsat", Cond: any,
+			Rec: Record{Msg: fmt.Sprintf("any of %d runtime-panic / shared-write conditions reachable", len(batch)), Kind: "panicbatch"}}
+		done := make(chan []Outcome, 1)
+		go func() { done <- e.Discharge([]Obligation{bob}, be, dir, timeoutS, 1) }()
+		restOut := e.Discharge(rest, be, dir, timeoutS, par)
+		bo := <-done
+		outs = append(outs, restOut...)
+		if bo[0].OK {
+			outs = append(outs, bo[0])
+		} else {
+			outs = append(outs, e.Discharge(batch, be, dir, timeoutS, par)...)
+		}
+		return outs
+	}
+	return e.Discharge(obs, be, dir, timeoutS, par)
 }
